@@ -377,3 +377,77 @@ Proof.
   intros F P D. destruct (family_reparse_all sb sy s v F P) as (v' & H1 & H2 & H3).
   exists v'. split; [exact H1|]. split; [exact (H3 D) | exact H2].
 Qed.
+
+(* Go and Composer have no wildcards: every parsed version is in the domain *)
+Lemma no_wildcard_parsed sy s v : sy = SGo \/ sy = SComposer -> parse sy s = Ok v -> is_wildcard (v_num v) = false.
+Proof.
+  intros HS P.
+  assert (F : family sy) by (destruct HS as [->| ->]; unfold family; auto 10).
+  destruct (parse_wf sy s v F P) as (_ & _ & (W1 & _) & _).
+  unfold is_wildcard. destruct (existsb (fun n => n =? wildcard) (v_num v)) eqn:E; [|reflexivity].
+  apply existsb_exists in E. destruct E as (x & Hx & Ex). apply Z.eqb_eq in Ex. subst x.
+  rewrite Forall_forall in W1. destruct (W1 _ Hx) as [(_ & Hw)|R].
+  - destruct HS as [->| ->]; discriminate Hw.
+  - unfold wildcard in R. lia.
+Qed.
+
+Theorem family_reparse_go_composer sb sy s v : sy = SGo \/ sy = SComposer -> parse sy s = Ok v ->
+  exists v', parse sy (generic_canon sb v) = Ok v' /\ generic_compare sy v v' = 0 /\
+             generic_canon sb v' = generic_canon sb v.
+Proof.
+  intros HS P.
+  assert (F : family sy) by (destruct HS as [->| ->]; unfold family; auto 10).
+  apply (family_reparse_dom sb sy s v F P). unfold c10_family_dom.
+  rewrite (no_wildcard_parsed sy s v HS P). reflexivity.
+Qed.
+
+(* the domain is exact: outside it the re-parsed version does not compare equal *)
+Lemma compare_nums_not_allz a : forall z, allz a = false -> allz z = true -> compare_nums a z <> 0.
+Proof.
+  induction a as [|x a IH]; intros z Ha Hz; [discriminate|].
+  cbn [allz forallb] in Ha.
+  destruct z as [|y z].
+  - cbn [compare_nums cmp_zero_l]. destruct (Z.eqb_spec x 0) as [->|Hx].
+    + cbn [andb] in Ha. change (sgnZ 0 0 =? 0) with true. cbv iota.
+      specialize (IH [] Ha eq_refl). destruct a; [discriminate|exact IH].
+    + assert (S0 : sgnZ x 0 <> 0) by (unfold sgnZ; destruct (Z.compare_spec x 0); lia).
+      destruct (Z.eqb_spec (sgnZ x 0) 0); [contradiction | exact S0].
+  - cbn [allz forallb] in Hz. apply andb_true_iff in Hz. destruct Hz as [Hy Hz]. apply Z.eqb_eq in Hy. subst y.
+    cbn [compare_nums]. destruct (Z.eqb_spec x 0) as [->|Hx].
+    + cbn [andb] in Ha. change (sgnZ 0 0 =? 0) with true. cbv iota. exact (IH z Ha Hz).
+    + assert (S0 : sgnZ x 0 <> 0) by (unfold sgnZ; destruct (Z.compare_spec x 0); lia).
+      destruct (Z.eqb_spec (sgnZ x 0) 0); [contradiction | exact S0].
+Qed.
+
+Lemma compare_nums_prefix a : forall b c, compare_nums (a ++ b) (a ++ c) = compare_nums b c.
+Proof. induction a as [|x a IH]; intros b c; [reflexivity|]. cbn [app compare_nums]. rewrite sgnZ_refl. cbn [Z.eqb]. apply IH. Qed.
+
+Theorem reparsed_unequal sb sy v : family sy -> c10_family_dom sy v = false ->
+  generic_compare sy v (reparsed sb sy v) <> 0.
+Proof.
+  intros F D. unfold c10_family_dom in D. apply orb_false_iff in D. destruct D as [W D].
+  apply negb_false_iff in W. unfold generic_compare, reparsed. cbn [v_num v_pre]. rewrite W.
+  assert (Ef : exists z, allz z = true /\ finish_nums sy (cnums (v_num v)) = cut_wild (v_num v) ++ z).
+  { unfold finish_nums. rewrite (family_not_gems sy F), (cnums_wild _ W). cbn [orb].
+    destruct (sys_eqb sy SNuGet).
+    - rewrite pad3_padz. unfold padz. eexists. split; [apply allz_repeat | reflexivity].
+    - exists []. split; [reflexivity | rewrite app_nil_r; reflexivity]. }
+  destruct Ef as (z & Hz & Ef). rewrite Ef.
+  assert (Ec : compare_nums (v_num v) (cut_wild (v_num v) ++ z) = compare_nums (after_wild (v_num v)) z).
+  { rewrite (cut_after (v_num v)) at 1. apply compare_nums_prefix. }
+  rewrite Ec.
+  destruct (allz (after_wild (v_num v))) eqn:A.
+  - rewrite (compare_nums_allz _ _ A Hz). cbn [Z.eqb negb]. rewrite andb_true_r in D.
+    destruct (v_pre v); [discriminate D | discriminate].
+  - pose proof (compare_nums_not_allz _ z A Hz) as N.
+    destruct (Z.eqb_spec (compare_nums (after_wild (v_num v)) z) 0); [contradiction|]. cbn [negb]. exact N.
+Qed.
+
+Theorem family_reparse_exact sb sy s v : family sy -> parse sy s = Ok v ->
+  ((exists v', parse sy (generic_canon sb v) = Ok v' /\ generic_compare sy v v' = 0) <-> c10_family_dom sy v = true).
+Proof.
+  intros F P. pose proof (parse_wf sy s v F P) as W. pose proof (canon_parses sb sy v F W) as R. split.
+  - intros (v' & P' & C). rewrite R in P'. inversion P'; subst v'.
+    destruct (c10_family_dom sy v) eqn:D; [reflexivity|]. exfalso. exact (reparsed_unequal sb sy v F D C).
+  - intros D. exists (reparsed sb sy v). split; [exact R | exact (reparsed_equal sb sy v F D)].
+Qed.
